@@ -4,7 +4,7 @@
 use crate::util::*;
 use peginator::{ParseError, ParseErrorSpecifics, PrettyParseError};
 use refpeg::corpus::Tier;
-use refpeg::enumerate::strings;
+use refpeg::enumerate::{piece_strings, strings};
 use serde_json::json;
 use std::panic::{catch_unwind, AssertUnwindSafe};
 
@@ -92,6 +92,19 @@ pub fn run(tier: Tier) {
             }
         }
     }
+    // longer texts made of pieces: line breaks next to vertical tab / form feed / CR LF, multi-byte pieces, so that
+    // line starts fall on every offset modulo 8 (word-at-a-time scanning)
+    let texts3 = piece_strings(&["\n", "\u{b}", "\u{c}", "abc", "\u{3000}é", "\r\n"], len);
+    for t in &texts3 {
+        for pos in 0..=t.len() {
+            if !t.is_char_boundary(pos) {
+                continue;
+            }
+            pairs += 1;
+            st.bump("piece_text_pairs", 1);
+            check_one(&mut st, t, pos, if pos % 2 == 0 { None } else { Some("g.ebnf") }, false);
+        }
+    }
     // histories: the same calls with every text written into ONE reused buffer (same address, same capacity), in
     // enumeration order; and every ordered pair of short texts of equal byte length, the second read right after the first
     let mut buf = String::with_capacity(256);
@@ -159,5 +172,5 @@ pub fn run(tier: Tier) {
             }
         }
     }
-    st.finish(json!({"texts": texts.len() + texts2.len(), "pairs": pairs, "alphabet": format!("{:?}", alphabet), "second_alphabet": format!("{:?}", alphabet2), "max_len": len}));
+    st.finish(json!({"texts": texts.len() + texts2.len() + texts3.len(), "pairs": pairs, "alphabet": format!("{:?}", alphabet), "second_alphabet": format!("{:?}", alphabet2), "max_len": len}));
 }
